@@ -28,6 +28,27 @@ struct Y1(u8);
 #[derive(Event, Serialize, Deserialize, Clone)]
 struct Y2(u8);
 
+#[derive(Component, Serialize, Deserialize, Clone)]
+struct HC(u8);
+#[derive(Event, Serialize, Deserialize, Clone)]
+struct Wrap<T>(T);
+#[derive(Event, Serialize, Deserialize, Clone)]
+struct Other<T>(T);
+
+/// A second, small vocabulary (items 100..): registrations that differ only in the direction of
+/// an event type, only in the outer type of a generic event, or only in a non-last component of
+/// a multi-component rule.
+const NAMES2: [&str; 8] = [
+    "client_event<X1>",
+    "server_event<X1>",
+    "client_event<Wrap<X1>>",
+    "client_event<Other<X1>>",
+    "server_event<Wrap<Y1>>",
+    "server_event<Other<Y1>>",
+    "replicate_with<(A,B)>",
+    "replicate_with<(C,B)>",
+];
+
 const ITEMS: usize = 15;
 const NAMES: [&str; ITEMS] = [
     "replicate<A>",
@@ -91,6 +112,30 @@ fn apply(app: &mut App, item: usize) {
         14 => {
             // the same position and kind as item 3, another bundle type
             app.replicate_bundle::<(HB, HA)>();
+        }
+        100 => {
+            app.add_client_event::<X1>(Channel::Ordered);
+        }
+        101 => {
+            app.add_server_event::<X1>(Channel::Ordered);
+        }
+        102 => {
+            app.add_client_event::<Wrap<X1>>(Channel::Ordered);
+        }
+        103 => {
+            app.add_client_event::<Other<X1>>(Channel::Ordered);
+        }
+        104 => {
+            app.add_server_event::<Wrap<Y1>>(Channel::Ordered);
+        }
+        105 => {
+            app.add_server_event::<Other<Y1>>(Channel::Ordered);
+        }
+        106 => {
+            app.replicate_with((RuleFns::<HA>::default(), RuleFns::<HB>::default()));
+        }
+        107 => {
+            app.replicate_with((RuleFns::<HC>::default(), RuleFns::<HB>::default()));
         }
         13 => {
             // equal to item 1 modulo 2^32
@@ -182,7 +227,30 @@ fn hash_of_seq_in_other_world(seq: &[usize]) -> String {
 }
 
 fn show(seq: &[usize]) -> String {
-    format!("[{}]", seq.iter().map(|&i| NAMES[i]).collect::<Vec<_>>().join(", "))
+    format!("[{}]", seq.iter().map(|&i| if i >= 100 { NAMES2[i - 100] } else { NAMES[i] }).collect::<Vec<_>>().join(", "))
+}
+
+/// All sequences without repetition over the second vocabulary (an event type is registered in
+/// one direction only within a sequence).
+fn sequences2(max_len: usize) -> Vec<Vec<usize>> {
+    let mut out: Vec<Vec<usize>> = vec![];
+    let mut layer: Vec<Vec<usize>> = vec![vec![]];
+    for _ in 0..max_len {
+        let mut next = Vec::new();
+        for s in &layer {
+            for i in 100..100 + NAMES2.len() {
+                if s.contains(&i) || (i == 100 && s.contains(&101)) || (i == 101 && s.contains(&100)) {
+                    continue;
+                }
+                let mut t = s.clone();
+                t.push(i);
+                next.push(t);
+            }
+        }
+        out.extend(next.iter().cloned());
+        layer = next;
+    }
+    out
 }
 
 /// Sequences within one edit (insert, delete, substitute, swap of neighbours) of `s`.
@@ -447,6 +515,29 @@ pub fn run(tier: Tier, _budget: f64, out: &mut Outcome) -> Result<(), MachineryE
         }
     }
     let pairs = (hashes.len() as u64) * (hashes.len() as u64 - 1) / 2;
+
+    // the second vocabulary: all pairs again, and a real handshake for every pair of single registrations
+    let seqs2 = sequences2(if q { 2 } else { 3 });
+    let hashes2: Vec<(Vec<usize>, String)> = seqs2.par_iter().map(|s| (s.clone(), hash_of_seq(s))).collect();
+    let mut by_hash2: BTreeMap<&String, &Vec<usize>> = BTreeMap::new();
+    for (s, h) in &hashes2 {
+        if let Some(prev) = by_hash2.insert(h, s) {
+            bad.push(Bad { oracle: "hash-collision", a: prev.clone(), b: s.clone(), detail: format!("different registration sequences have the same protocol hash {h}") });
+        }
+    }
+    let mut handshakes2 = 0u64;
+    for a in 100..100 + NAMES2.len() {
+        for b in 100..100 + NAMES2.len() {
+            handshakes2 += 1;
+            if let Err(e) = handshake_with(&[a], &[b], false, false) {
+                bad.push(e);
+            }
+        }
+    }
+    out.evaluations += hashes2.len() as u64 + handshakes2;
+    out.nontrivial += hashes2.len() as u64 + handshakes2;
+    out.transitions += (hashes2.len() as u64) * (hashes2.len() as u64 - 1) / 2 + handshakes2;
+    out.reports.push(json!({"cell": "c14-second-vocabulary", "items": NAMES2, "sequences": hashes2.len(), "distinct_hashes": by_hash2.len(), "handshakes": handshakes2, "exhaustive_within_bound": true}));
 
     // real handshakes for all pairs at edit distance <= 1
     let base_len = if q { 2 } else { 3 };
